@@ -31,6 +31,51 @@ struct AsyncClientInner {
     pending: StdMutex<PendingRequests>,
     next_id: AtomicU64,
     shutdown: StdMutex<Option<oneshot::Sender<()>>>,
+    /// Set when a request write was interrupted part-way (its future dropped
+    /// or a write failed): the stream may hold a torn frame, so nothing more
+    /// is ever written on this connection.
+    write_broken: std::sync::atomic::AtomicBool,
+}
+
+/// Marks the connection unusable unless the frame write it guards completes.
+///
+/// A frame is several awaited writes. If the calling future is dropped between
+/// them (the caller was cancelled or timed out) or one of them fails, part of
+/// the frame may already be on the wire; a later frame written behind it could
+/// never be re-synchronised by the peer. `Drop` therefore fails the connection:
+/// later writes are refused, the response loop is stopped and every call in
+/// flight gets an error.
+struct FrameWriteGuard<'a> {
+    inner: &'a AsyncClientInner,
+    completed: bool,
+}
+
+impl Drop for FrameWriteGuard<'_> {
+    fn drop(&mut self) {
+        if self.completed {
+            return;
+        }
+        self.inner.write_broken.store(true, Ordering::Release);
+        if let Ok(mut tx) = self.inner.shutdown.lock()
+            && let Some(sender) = tx.take()
+        {
+            let _ = sender.send(());
+        }
+        let waiters = {
+            let mut pending = lock_pending_map(&self.inner.pending);
+            pending.drain().collect::<Vec<_>>()
+        };
+        for (request_id, sender) in waiters {
+            let _ = sender.send(Err(torn_write_error(request_id)));
+        }
+    }
+}
+
+fn torn_write_error(request_id: u64) -> RepeError {
+    RepeError::Io(std::io::Error::new(
+        std::io::ErrorKind::BrokenPipe,
+        format!("connection failed by an interrupted request write (request {request_id})"),
+    ))
 }
 
 impl Drop for AsyncClientInner {
@@ -107,6 +152,7 @@ impl AsyncClient {
             pending: StdMutex::new(HashMap::new()),
             next_id: AtomicU64::new(1),
             shutdown: StdMutex::new(Some(shutdown_tx)),
+            write_broken: std::sync::atomic::AtomicBool::new(false),
         });
 
         spawn_response_loop(
@@ -661,8 +707,16 @@ impl AsyncClient {
         #[cfg(feature = "verif-hooks")]
         crate::verif_hooks::hit("aclient.before_write");
         let mut writer = self.inner.writer.lock().await;
+        if self.inner.write_broken.load(Ordering::Acquire) {
+            return Err(torn_write_error(msg.header.id));
+        }
+        let mut guard = FrameWriteGuard {
+            inner: &self.inner,
+            completed: false,
+        };
         write_message_async(&mut *writer, msg).await?;
         writer.flush().await?;
+        guard.completed = true;
         Ok(())
     }
 
